@@ -360,6 +360,10 @@ func (m *Model) Apply(cmd *Cmd) Expect {
 		c.Fail = cmd.Fail
 		return Expect{Out: Outcome{Class: "ok"}, Applied: true}
 	case "Poke", "Observe", "Native":
+		if cmd.Op == "Native" && cmd.Native == "reset" {
+			// SetInterpreter(a fresh native interpreter): every registered Go function is gone
+			c.Matchers, c.Updaters, c.Panicky = nil, nil, nil
+		}
 		if cmd.Op == "Native" && cmd.Native == "activate" {
 			c.Native = true
 		}
